@@ -93,3 +93,21 @@ Proof.
   - rewrite nth_error_app1 by (rewrite rev_length; lia).
     rewrite IH by lia. replace (S (List.length l) - S n)%nat with (S (List.length l - S n)) by lia. reflexivity.
 Qed.
+
+Lemma nth_error_ext_lists {A} (l1 l2 : list A) :
+  (forall k, nth_error l1 k = nth_error l2 k) -> l1 = l2.
+Proof.
+  revert l2; induction l1 as [|x l1 IH]; intros [|y l2] H.
+  - reflexivity.
+  - specialize (H 0%nat). discriminate.
+  - specialize (H 0%nat). discriminate.
+  - f_equal; [specialize (H 0%nat); inversion H; reflexivity|].
+    apply IH. intros k. exact (H (S k)).
+Qed.
+
+Lemma nth_error_seq0 n k : nth_error (seq 0 n) k = if Nat.ltb k n then Some k else None.
+Proof.
+  destruct (Nat.ltb_spec k n) as [H|H].
+  - rewrite (nth_error_nth' _ 0%nat) by (rewrite seq_length; exact H). rewrite seq_nth by exact H. reflexivity.
+  - apply nth_error_None. rewrite seq_length. exact H.
+Qed.
